@@ -6,7 +6,8 @@ package orda
 // (current, target) of a fixed finite family of JSON objects and checks the property's clauses:
 //   - PatchByJSON(target) returns no error and the document's value equals the target,
 //   - the patch is one atomic unit (one transaction: a marker plus the operations, or a single operation),
-//   - a second replica that receives the emitted operations holds the same value.
+//   - a second replica that receives the emitted operations holds the same value,
+//   - and the same again for patching back from the target to the first object (removed keys and elements return).
 // Family (VERIF_BOUND_DEPTH = longest array): {"a": A} for every array A over {1,2,3} up to length 3 and over {1,2} up
 // to the bound; a list of objects with nested objects/arrays, the empty key, keys with "/" and "~", type changes.
 // Exhaustive over the family, fixed order, no randomness; injected with `go test -overlay`.
@@ -155,6 +156,22 @@ func vpPair(cur, target string) (failure error) {
 		b, _ := json.Marshal(d2.GetValue())
 		return fmt.Errorf("the other replica holds %s after the operations of PatchByJSON(%s)", b, target)
 	}
+	// and back again: keys and elements that were removed are added again with the values they had
+	if _, err := d1.PatchByJSON(cur); err != nil {
+		return fmt.Errorf("patching back to %s returned %v", cur, err)
+	}
+	if !vpSame(d1.GetValue(), cur) {
+		b, _ := json.Marshal(d1.GetValue())
+		return fmt.Errorf("patching back: PatchByJSON(%s) after PatchByJSON(%s) left %s", cur, target, b)
+	}
+	all := w1.CreatePushPullPack().Operations
+	if _, err := w2.ReceiveRemoteModelOperations(all[len(ops):], false); err != nil {
+		return fmt.Errorf("patching back: the other replica refused the emitted operations: %v", err)
+	}
+	if !vpSame(d2.GetValue(), cur) {
+		b, _ := json.Marshal(d2.GetValue())
+		return fmt.Errorf("patching back: the other replica holds %s after the operations of PatchByJSON(%s)", b, cur)
+	}
 	return nil
 }
 
@@ -183,7 +200,7 @@ func TestVerifBounded(t *testing.T) {
 			}
 		}
 	}
-	fmt.Printf("VERIF-BOUNDED-SUMMARY harness=docpatch histories=%d steps=%d failures=%d bound=[every ordered pair (current, target) of a family of %d JSON objects: arrays over {1,2,3} up to length %d and over {1,2} up to length %d under one key, and 25 hand-picked nested objects; 2 replicas] sample=[%s]\n", pairs, 2*pairs, failures, len(fam), map[bool]int{true: 4, false: 3}[bound >= 5], bound, sample)
+	fmt.Printf("VERIF-BOUNDED-SUMMARY harness=docpatch histories=%d steps=%d failures=%d bound=[every ordered pair (current, target), patched there and back, of a family of %d JSON objects: arrays over {1,2,3} up to length %d and over {1,2} up to length %d under one key, and 25 hand-picked nested objects; 2 replicas] sample=[%s]\n", pairs, 3*pairs, failures, len(fam), map[bool]int{true: 4, false: 3}[bound >= 5], bound, sample)
 	if failures > 0 {
 		t.Fatalf("%d failing pairs", failures)
 	}
